@@ -89,7 +89,7 @@ func VerifRoundTripW() {
 
 var vnRTSketches = [][2]string{
 	{"`x", "y`"}, {"\"", "\""}, {"/", "/"}, {"a=", ".b"}, {"/*!", "*/"},
-	{"+ +a", ""}, {"a+ ", "b"}, {"a- ", "b"}, {"for((a in b);;);", ""}, {"(let)[0]", ""}, {"1", ".a"}, {"a=", "n"},
+	{"+ +a", ""}, {"a+ ", "b"}, {"+ ", "a"}, {"- ", "a"}, {"a=+ ", "b"}, {"a=- ", "b"}, {"a- ", "b"}, {"for((a in b);;);", ""}, {"(let)[0]", ""}, {"1", ".a"}, {"a=", "n"},
 }
 
 // VerifRoundTripSketch: literals with symbolic bytes (including line breaks) printed at
